@@ -102,6 +102,11 @@ class Check:
         """Audit mode (DESIGN §3.4): no de-duplication; states with equal fingerprints must have equal
         successors and equal oracle verdicts.  A mismatch is a harness error, never a verdict."""
         from . import explorer
+        if self.violations:
+            # a violation has already been found (and is replayable on its own): the audit guards the soundness of a
+            # verdict of silence, it has nothing to add here and must not turn a verdict into a harness error
+            self.cov.setdefault("audit", []).append({"spec": spec, "params": params, "skipped": "violations already found"})
+            return
         classes, pairs, mism = explorer.audit(spec, params, depth, dev, limit=limit)
         a = self.cov.setdefault("audit", [])
         a.append({"spec": spec, "params": params, "depth": depth, "deviations": dev, "classes": classes,
